@@ -297,6 +297,15 @@ def preconditions(case, o, form):
     return False
 
 
+def text_scope(o, form):
+    """the conditions the property text itself attaches to 'always succeeds'"""
+    g = VU.graph_of(o)
+    if form == "path":
+        cap, init = g["cap"], g["init"]
+        return cap is not None and init is not None and 0 <= init <= cap and all(abs(n[1]) <= cap for n in g["nodes"][1:])
+    return int(o.max_sequence_length) >= 3
+
+
 def run_case(case, drv):
     res = Result(key=core.case_key(case))
     mode = case.get("mode", "vrptw")
@@ -365,6 +374,11 @@ def run_case(case, drv):
             res.features.append(f"raised:{outcome}")
             if form in ("path", "seq") and pre:
                 res.fail(f"{form}:raises", f"make_feasible (invocation {rnd + 1}) raised {e!r} although the preconditions hold {label}")
+            elif form in ("path", "seq") and case.get("text_scope") and text_scope(o, form):
+                # (witnesses of the known finding only: the property TEXT asks for no more than demands within capacity / L >= 3;
+                # the theorems and the generated stream carry the depot-window hypotheses PathPre / SeqPre)
+                res.fail(f"{form}:raises-in-text-scope", f"make_feasible raised {e!r}: the property's own conditions hold (demands within capacity / "
+                                                         f"at least three positions), the depot's window makes every completion impossible {label}")
             break
         n = check_solution(res, o, form, label + f" invocation {rnd + 1}")
         if n is None:
